@@ -1,11 +1,15 @@
 package main
 
 import (
+	"bytes"
 	"errors"
 	"fmt"
+	"hash/crc32"
 	"math/big"
 	"math/rand"
+	"runtime"
 	"strings"
+	"time"
 
 	"github.com/hashicorp/raft-wal/segment"
 	"github.com/hashicorp/raft-wal/types"
@@ -17,8 +21,55 @@ import (
 func init() {
 	streams["format"] = &stream{gen: genFormat, exec: execSeg}
 	streams["segcrash"] = &stream{gen: genSegCrash, exec: execSeg}
-	streams["corrupt"] = &stream{gen: genCorrupt, exec: execSeg}
+	streams["corrupt"] = &stream{gen: genCorrupt, exec: execSegWatched}
+	streams["sizes"] = &stream{gen: genSizes, exec: execSizes}
 }
+
+// segMaxEntry mirrors segment.MaxEntrySize as an int for allocation bounds.
+const segMaxEntry = segment.MaxEntrySize
+
+// allocSlack is the constant part of the C11 allocation bound: pooled 64 KiB
+// read buffers, zeroStaleTail's two 64 KiB buffers, the 32 Ki-entry offsets
+// slice of recovery (128 KiB), DumpSegment's 64 KiB buffer, small garbage.
+const allocSlack = 1 << 20
+
+// measured runs fn and reports a C11 witness when it allocates more than
+// file length + MaxEntrySize + allocSlack bytes.
+func measured(c *ctx, what string, fileLen int, line string, fn func()) {
+	var m0, m1 runtime.MemStats
+	runtime.ReadMemStats(&m0)
+	fn()
+	runtime.ReadMemStats(&m1)
+	d := m1.TotalAlloc - m0.TotalAlloc
+	if d > uint64(fileLen)+uint64(segMaxEntry)+allocSlack {
+		c.witness("C11", "segment-alloc", fmt.Sprintf("%s allocates %d bytes on a %d byte file", what, d, fileLen), line)
+	}
+	if d > uint64(fileLen)+2*minBuf+allocSlack/2 {
+		c.stat("alloc_over_file_len")
+	}
+}
+
+const minBuf = 64 * 1024
+
+// execSegWatched runs one `seg` line under a wall-clock watchdog (C11: damaged
+// files must not hang the reader / recovery) with allocation accounting on.
+func execSegWatched(c *ctx, line string) string {
+	type res struct{ obs string }
+	ch := make(chan res, 1)
+	c.measure = true
+	go func() { ch <- res{execSeg(c, line)} }()
+	select {
+	case r := <-ch:
+		c.measure = false
+		return r.obs
+	case <-time.After(30 * time.Second):
+		c.measure = false
+		c.witness("C11", "segment-hang", "segment code does not return within 30 s on a damaged file", line)
+		return "hang"
+	}
+}
+
+var crcTab = crc32.MakeTable(crc32.Castagnoli)
 
 func segErrKind(err error) string {
 	switch {
@@ -132,7 +183,13 @@ func execSeg(c *ctx, line string) (obs string) {
 				out = append(out, "badinput")
 				continue
 			}
-			pb, err := rd.GetLog(idx)
+			var pb *types.PooledBuffer
+			var err error
+			if c.measure {
+				measured(c, "GetLog", len(mf.data), line, func() { pb, err = rd.GetLog(idx) })
+			} else {
+				pb, err = rd.GetLog(idx)
+			}
 			if err != nil {
 				out = append(out, segErrKind(err))
 			} else {
@@ -140,7 +197,13 @@ func execSeg(c *ctx, line string) (obs string) {
 				pb.Close()
 			}
 		case "R":
-			nsw, err := filer.RecoverTail(info)
+			var nsw types.SegmentWriter
+			var err error
+			if c.measure {
+				measured(c, "RecoverTail", len(mf.data), line, func() { nsw, err = filer.RecoverTail(info) })
+			} else {
+				nsw, err = filer.RecoverTail(info)
+			}
 			if err != nil {
 				out = append(out, segErrKind(err))
 				rd = nil
@@ -170,6 +233,20 @@ func execSeg(c *ctx, line string) (obs string) {
 				}
 				copy(img[k*8:end], src[k*8:end])
 			}
+			// C02: evaluate no_torn_collision on this image (see coq/Seg/RecoverFacts.v):
+			// image incomplete, commit chunk present, CRC of the rest equal
+			if mf.lastLen >= 8 && mf.lastOff+mf.lastLen <= n {
+				lo, hi := mf.lastOff, mf.lastOff+mf.lastLen
+				if !bytes.Equal(img[lo:hi], curp[lo:hi]) && bytes.Equal(img[hi-8:hi], curp[hi-8:hi]) &&
+					crc32.Checksum(img[lo:hi-8], crcTab) == crc32.Checksum(curp[lo:hi-8], crcTab) {
+					c.stat("torn_collision")
+				} else {
+					c.stat("torn_no_collision")
+				}
+				if bytes.Equal(img[lo:hi], curp[lo:hi]) {
+					c.stat("torn_complete")
+				}
+			}
 			mf.data, mf.pre = img, append([]byte(nil), img...)
 			// the crash loses the process: forget acks that were not synced?  Appends
 			// in this stream always sync, so every acked entry must survive (oracle below).
@@ -187,7 +264,13 @@ func execSeg(c *ctx, line string) (obs string) {
 			_, is, _ := sw.Sealed()
 			info2 := info
 			info2.MinIndex, info2.MaxIndex, info2.IndexStart = mn, mx, is
-			r, err := filer.Open(info2)
+			var r types.SegmentReader
+			var err error
+			if c.measure {
+				measured(c, "Open", len(mf.data), line, func() { r, err = filer.Open(info2) })
+			} else {
+				r, err = filer.Open(info2)
+			}
 			if err != nil {
 				out = append(out, segErrKind(err))
 				rd = nil
@@ -214,10 +297,26 @@ func execSeg(c *ctx, line string) (obs string) {
 			after, before := parseU(ops[i+1]), parseU(ops[i+2])
 			i += 2
 			var es []string
-			err := filer.DumpSegment(base, id, after, before, func(_ types.SegmentInfo, e types.LogEntry) (bool, error) {
-				es = append(es, fmt.Sprintf("%x:%s", e.Index, hx(e.Data)))
-				return true, nil
-			})
+			var err error
+			dump := func() {
+				err = filer.DumpSegment(base, id, after, before, func(_ types.SegmentInfo, e types.LogEntry) (bool, error) {
+					es = append(es, fmt.Sprintf("%x:%s", e.Index, hx(e.Data)))
+					return true, nil
+				})
+			}
+			if c.measure {
+				// the hex rendering of the observation is the harness's own allocation
+				n := 0
+				measured(c, "DumpSegment", len(mf.data), line, func() {
+					err = filer.DumpSegment(base, id, after, before, func(_ types.SegmentInfo, e types.LogEntry) (bool, error) {
+						n++
+						return true, nil
+					})
+				})
+				dump()
+			} else {
+				dump()
+			}
 			k := "ok"
 			if err != nil {
 				k = "err"
@@ -393,7 +492,12 @@ func genCorrupt(c *ctx, emit func(string)) {
 		nm := 1 + r.Intn(3)
 		for m := 0; m < nm; m++ {
 			off := r.Intn(used + 16)
-			switch r.Intn(6) {
+			switch r.Intn(7) {
+			case 6: // length field of the first entry frame (always at offset 32): the sealed
+				// reader reaches it through the index and must bound its allocation
+				l := []string{"ffffffff", "01000004", "00000004", "00000100", "f0ffffff", "ffff0000"}[r.Intn(6)]
+				ops = append(ops, "X 24 "+l)
+				c.stat("first_frame_length_edit")
 			case 0:
 				ops = append(ops, fmt.Sprintf("X %x %02x", off, 1<<uint(r.Intn(8))))
 			case 1:
@@ -420,4 +524,210 @@ func genCorrupt(c *ctx, emit func(string)) {
 		ops = append(ops, "D 0 0")
 		emit(strings.Join(ops, " "))
 	}
+}
+
+// ---- sizes (C15): entry-size boundaries ------------------------------------
+//
+// Neighbourhoods listed by the property: 0 and all residues mod 8; the 64 KiB
+// read buffer +-16 (frame = 8 + payload, so payloads 65512..65544); the segment
+// size limit +- frame overhead, and entries larger than the whole segment;
+// first / middle / last position in a batch.  64 MiB +-1 are implementation-only
+// lines (`#big <size>`), thorough tier, checked by the Go oracle alone.
+
+func sizedPayload(r *rand.Rand, n int) string {
+	b := make([]byte, n)
+	r.Read(b)
+	return hx(b)
+}
+
+// one `seg` line: a batch with the given payload sizes, reads through the tail
+// reader, seal (if the append did not seal), reads through the sealed reader,
+// recovery, reads again
+func sizesLine(r *rand.Rand, base uint64, limit int, pre []int, batch []int) string {
+	ops := []string{fmt.Sprintf("seg %x %x 1 %x %x", base, r.Uint64()>>uint(r.Intn(64)), limit, limit)}
+	next := base
+	if len(pre) > 0 {
+		a := fmt.Sprintf("A %x", len(pre))
+		for _, n := range pre {
+			a += fmt.Sprintf(" %x %s", next, sizedPayload(r, n))
+			next++
+		}
+		ops = append(ops, a)
+	}
+	a := fmt.Sprintf("A %x", len(batch))
+	for _, n := range batch {
+		a += fmt.Sprintf(" %x %s", next, sizedPayload(r, n))
+		next++
+	}
+	ops = append(ops, a, "Q", "L")
+	for j := base; j < next; j++ {
+		ops = append(ops, fmt.Sprintf("G %x", j))
+	}
+	ops = append(ops, "S", fmt.Sprintf("O %x %x", base, next-1))
+	for j := base; j < next; j++ {
+		ops = append(ops, fmt.Sprintf("G %x", j))
+	}
+	ops = append(ops, "R", "Q", "L", fmt.Sprintf("G %x", next-1))
+	return strings.Join(ops, " ")
+}
+
+func genSizes(c *ctx, emit func(string)) {
+	r := rand.New(rand.NewSource(c.seed))
+	count := 0
+	out := func(l string) { emit(l); count++ }
+	place := func(pos, big int) []int { // big at position pos of a 3-batch
+		b := []int{3, 11, 0}
+		b[pos] = big
+		return b
+	}
+	// A. 0 and every residue mod 8, alone and in each position
+	for sz := 0; sz <= 17; sz++ {
+		out(sizesLine(r, 1, 4096, nil, []int{sz}))
+		out(sizesLine(r, uint64(1+r.Intn(50)), 4096, []int{5}, place(sz%3, sz)))
+		c.stat("residues")
+	}
+	// C. segment size limit +- frame overhead; larger than the whole segment
+	for _, L := range []int{256, 512, 1024} {
+		// first batch seals iff 32 + 8 + sz + pad + 16 > L
+		for d := -10; d <= 10; d++ {
+			sz := L - 56 + d
+			out(sizesLine(r, 1, L, nil, []int{sz}))
+			c.stat("segment_boundary")
+		}
+		for d := -9; d <= 9; d += 3 { // second batch crossing the limit
+			out(sizesLine(r, 7, L, []int{L / 4}, place((d+9)/3%3, L-L/4-100+d)))
+			c.stat("segment_boundary")
+		}
+		for _, sz := range []int{L, L + 1, 2 * L, 3*L + 5} {
+			out(sizesLine(r, 3, L, nil, place(sz%3, sz)))
+			out(sizesLine(r, 3, L, []int{9}, []int{sz}))
+			c.stat("larger_than_segment")
+		}
+	}
+	// B. the 64 KiB read buffer: payloads 65512..65544 (frames 65520..65552)
+	var bigs []int
+	for sz := 65512; sz <= 65544; sz++ {
+		bigs = append(bigs, sz)
+	}
+	nbig := 4
+	if c.tier == "thorough" {
+		nbig = len(bigs)
+	}
+	step := len(bigs) / nbig
+	for k := 0; k < nbig; k++ {
+		sz := bigs[(k*step+int(c.seed))%len(bigs)]
+		if k == 0 {
+			sz = 65528 // frame of exactly 64 KiB
+		}
+		limit := []int{1 << 20, 4096, 70000}[k%3]
+		out(sizesLine(r, 1, limit, nil, place(k%3, sz)))
+		c.stat("read_buffer_boundary")
+	}
+	// D. random mixes up to the requested number of cases
+	for count < c.n {
+		L := []int{128, 512, 2048, 8192}[r.Intn(4)]
+		var pre, b []int
+		for k := r.Intn(3); k > 0; k-- {
+			pre = append(pre, r.Intn(L/2))
+		}
+		for k := 1 + r.Intn(4); k > 0; k-- {
+			b = append(b, []int{0, r.Intn(9), r.Intn(L), L + r.Intn(L), sizeClasses[r.Intn(len(sizeClasses))]}[r.Intn(5)])
+		}
+		out(sizesLine(r, uint64(1+r.Intn(1000)), L, pre, b))
+		c.stat("random")
+	}
+	if c.tier == "thorough" {
+		for _, sz := range []int{segMaxEntry - 1, segMaxEntry, segMaxEntry + 1} {
+			emit(fmt.Sprintf("#big %x", sz))
+			emit(fmt.Sprintf("#bigmid %x", sz))
+		}
+	}
+}
+
+func execSizes(c *ctx, line string) string {
+	if strings.HasPrefix(line, "#big") {
+		return execBig(c, line)
+	}
+	return execSeg(c, line)
+}
+
+// execBig: one entry of the given size (alone, or in the middle of a batch) on
+// a 1 MiB segment: acknowledged => readable (tail reader and sealed reader);
+// size <= MaxEntrySize => accepted; size > MaxEntrySize => ErrTooBig, nothing
+// written.  Too large for a model line; the Go oracle decides alone.
+func execBig(c *ctx, line string) (obs string) {
+	defer func() {
+		if e := recover(); e != nil {
+			obs = "panic"
+			c.witness("C15", "big-panic", fmt.Sprintf("segment code panics on a large entry: %v", e), line)
+		}
+		runtime.GC()
+	}()
+	f := strings.Split(line, " ")
+	size := int(parseU(f[1]))
+	mid := f[0] == "#bigmid"
+	info := types.SegmentInfo{ID: 1, BaseIndex: 1, MinIndex: 1, Codec: 1, SizeLimit: 1 << 20}
+	vfs := newMemFS()
+	vfs.noPre = true
+	filer := segment.NewFiler("d", vfs)
+	sw, err := filer.Create(info)
+	if err != nil {
+		return "badinput"
+	}
+	big := make([]byte, size)
+	for i := 0; i < size; i += 4093 {
+		big[i] = byte(i)
+	}
+	big[size-1] = 0x5a
+	es := []types.LogEntry{{Index: 1, Data: big}}
+	if mid {
+		es = []types.LogEntry{{Index: 1, Data: []byte("a")}, {Index: 2, Data: big}, {Index: 3, Data: []byte("zz")}}
+	}
+	before := len(stripZeros(vfs.files[segment.FileName(info)].data))
+	err = sw.Append(es)
+	c.stat("big_cases")
+	if size > segMaxEntry {
+		if !errors.Is(err, segment.ErrTooBig) {
+			c.witness("C15", "toobig-accepted", fmt.Sprintf("entry of %d bytes (> MaxEntrySize) not refused with ErrTooBig: %v", size, err), line)
+			return "fail"
+		}
+		if sw.LastIndex() != 0 || len(stripZeros(vfs.files[segment.FileName(info)].data)) != before {
+			c.witness("C15", "toobig-side-effect", "refused batch changed the segment", line)
+			return "fail"
+		}
+		return "toobig"
+	}
+	if err != nil {
+		c.witness("C15", "max-refused", fmt.Sprintf("entry of %d bytes (<= MaxEntrySize) refused: %v", size, err), line)
+		return "fail"
+	}
+	check := func(rd types.SegmentReader, what string) bool {
+		for _, e := range es {
+			pb, gerr := rd.GetLog(e.Index)
+			if gerr != nil || !bytes.Equal(pb.Bs, e.Data) {
+				c.witness("C15", "acked-unreadable", fmt.Sprintf("entry %d (%d bytes) acknowledged but %s fails: %v", e.Index, len(e.Data), what, gerr), line)
+				return false
+			}
+			pb.Close()
+		}
+		return true
+	}
+	if !check(sw, "tail GetLog") {
+		return "fail"
+	}
+	sealed, is, _ := sw.Sealed()
+	if !sealed {
+		c.witness("C15", "big-not-sealed", "entry larger than the segment did not seal it", line)
+		return "fail"
+	}
+	info2 := info
+	info2.IndexStart, info2.MaxIndex = is, es[len(es)-1].Index
+	r, err := filer.Open(info2)
+	if err != nil || !check(r, "sealed GetLog") {
+		if err != nil {
+			c.witness("C15", "acked-unreadable", fmt.Sprintf("sealed open fails: %v", err), line)
+		}
+		return "fail"
+	}
+	return "ok"
 }
